@@ -11,6 +11,7 @@ Definition check_sx (x : sx) : verdict :=
       else if sx_is "reply" k then check_reply args
       else if sx_is "life" k then check_life args
       else if sx_is "trip" k then check_trip args
+      else if sx_is "sm" k then check_sm args
       else if sx_is "cli" k then check_cli args
       else if sx_is "c11" k then check_c11 args
       else bad_case
